@@ -2270,3 +2270,177 @@ Proof.
     rewrite FD. rewrite (IH _ _ _ Ero Ers D2 Hf).
     unfold attr_sem at 2. cbn [fst snd]. rewrite A1, A2, EF. reflexivity.
 Qed.
+
+Lemma uleb_first_byte v bs : write_uleb128 v = Ok bs -> v <> 0 ->
+  exists b r, bs = b :: r /\ (b2n b =? 0) = false.
+Proof.
+  unfold write_uleb128. cbn [write_uleb_fuel]. rewrite low7_land255, shiftr7_div.
+  assert (Hx : v mod 128 < 128) by (apply N.mod_lt; discriminate).
+  assert (Hv := N.div_mod v 128 ltac:(discriminate)).
+  intros H Hnz. destruct (v / 128 =? 0) eqn:E.
+  - injection H as <-. apply N.eqb_eq in E. exists (n2b (v mod 128)), []. split; [reflexivity|].
+    rewrite b2n_n2b_small by lia. apply N.eqb_neq. lia.
+  - apply bind_ok_inv in H. destruct H as [r [_ H]]. injection H as <-. unfold CONT.
+    exists (n2b (N.lor (v mod 128) 128)), r. split; [reflexivity|].
+    assert (S := sweep_lt 128 (fun x => negb (b2n (n2b (N.lor x 128)) =? 0))).
+    specialize (S ltac:(vm_compute; reflexivity) _ Hx). cbv beta in S. now apply negb_true_iff in S.
+Qed.
+
+Lemma ops_resolved_len (f : eid -> list byte) (w : N) : forall ops,
+  (forall id, UnitWr.blen (f id) = w) -> (forall id w', In (WUnitRef id w') ops -> w' = w) ->
+  UnitWr.blen (ops_resolved f ops) = ops_len ops.
+Proof.
+  induction ops as [|o r IH]; intros Hf HW; [reflexivity|].
+  unfold ops_resolved in *. cbn [flat_map]. rewrite blen_app, ops_len_cons.
+  rewrite IH by (auto; intros; eapply HW; right; eassumption). f_equal.
+  destruct o; try reflexivity. cbn [op_resolved op_bytes]. rewrite zeros_blen, Hf. symmetry. eapply HW. left. reflexivity.
+Qed.
+
+Lemma decode_attrs_app e be : forall s1 s2 bs l1 bs1,
+  decode_attrs e be s1 bs = Some (l1, bs1) ->
+  decode_attrs e be (s1 ++ s2) bs =
+  match decode_attrs e be s2 bs1 with Some (l2, bs2) => Some (l1 ++ l2, bs2) | None => None end.
+Proof.
+  induction s1 as [|s r IH]; intros s2 bs l1 bs1 H; cbn [decode_attrs app] in *.
+  - injection H as E1 E2. subst l1 bs1. destruct (decode_attrs e be s2 bs) as [[l2 b2]|]; reflexivity.
+  - destruct (form_decode e be (as_form s) (as_ic s) bs) as [[v b']|]; [|discriminate].
+    destruct (decode_attrs e be r b') as [[l b'']|] eqn:E; [|discriminate]. injection H as E1 E2. subst l1 bs1.
+    rewrite (IH s2 _ _ _ E). destruct (decode_attrs e be s2 b'') as [[l2 b2]|]; reflexivity.
+Qed.
+
+(* each entry of the tree finds its abbreviation under its code in the table the reader uses *)
+Section codes.
+  Variables (dbg : bool) (cx : wcx) (tab : list abbrev).
+  Fixpoint codes_ok (d : die) : Prop :=
+    match d with
+    | Die id _ _ _ ch =>
+        (exists code ab, nth_error (wc_codes cx) id = Some code /\
+                         die_abbrev dbg (wc_enc cx) d = Ok ab /\ abbrev_lookup tab code = Some ab) /\
+        (fix go (l : list die) : Prop := match l with [] => True | c :: r => codes_ok c /\ go r end) ch
+    end.
+  Fixpoint codes_ok_list (l : list die) : Prop :=
+    match l with [] => True | c :: r => codes_ok c /\ codes_ok_list r end.
+End codes.
+
+Lemma codes_ok_unfold dbg cx tab id tag sib attrs ch :
+  codes_ok dbg cx tab (Die id tag sib attrs ch) =
+  ((exists code ab, nth_error (wc_codes cx) id = Some code /\
+                    die_abbrev dbg (wc_enc cx) (Die id tag sib attrs ch) = Ok ab /\ abbrev_lookup tab code = Some ab) /\
+   codes_ok_list dbg cx tab ch).
+Proof. reflexivity. Qed.
+
+Fixpoint die_decodable (d : die) : Prop :=
+  match d with
+  | Die _ _ _ attrs ch =>
+      Forall (fun p => av_decodable (snd p)) attrs /\
+      (fix go (l : list die) : Prop := match l with [] => True | c :: r => die_decodable c /\ go r end) ch
+  end.
+Fixpoint dies_decodable (l : list die) : Prop :=
+  match l with [] => True | c :: r => die_decodable c /\ dies_decodable r end.
+Lemma die_decodable_unfold id tag sib attrs ch :
+  die_decodable (Die id tag sib attrs ch) = (Forall (fun p => av_decodable (snd p)) attrs /\ dies_decodable ch).
+Proof. reflexivity. Qed.
+
+(* the decoded tree corresponds to the written tree: same tags, nesting and attribute lists (with the
+   DW_AT_sibling the writer adds), every entry where `write` put it, the sibling value pointing at the end
+   of the entry's subtree *)
+Inductive dmatch (cx : wcx) (f : eid -> list byte) : die -> N -> N -> sdie -> Prop :=
+| DMleaf : forall id tag sib attrs pos endp,
+    dmatch cx f (Die id tag sib attrs []) pos endp (SDie pos tag (map (attr_sem cx f) attrs) [])
+| DMnode : forall id tag sib attrs c r pos endp p0 kids,
+    kmatch cx f (c :: r) p0 (endp - 1) kids -> pos < p0 -> p0 < endp ->
+    dmatch cx f (Die id tag sib attrs (c :: r)) pos endp
+      (SDie pos tag
+         ((if sib then [(DW_AT_sibling, word_form (wc_enc cx) DW_FORM_ref4 DW_FORM_ref8, RU (endp - wc_unit_off cx))]
+           else []) ++ map (attr_sem cx f) attrs) kids)
+with kmatch (cx : wcx) (f : eid -> list byte) : list die -> N -> N -> list sdie -> Prop :=
+| KMnil : forall p, kmatch cx f [] p p []
+| KMcons : forall c r p m q k ks,
+    dmatch cx f c p m k -> kmatch cx f r m q ks -> kmatch cx f (c :: r) p q (k :: ks).
+
+Lemma abbrev_lookup_nonzero tab code ab : abbrev_lookup tab code = Some ab -> code <> 0.
+Proof. unfold abbrev_lookup. destruct (code =? 0) eqn:Z; [discriminate|]. intros _. now apply N.eqb_neq. Qed.
+
+Lemma ops_resolved_cons f o r : ops_resolved f (o :: r) = op_resolved f o ++ ops_resolved f r.
+Proof. reflexivity. Qed.
+
+(* a written entry starts with the (non-zero) first byte of its abbreviation code *)
+Lemma write_die_first_byte dbg cx (f : eid -> list byte) tab d pos ops :
+  write_die dbg cx d pos = Ok ops -> codes_ok dbg cx tab d ->
+  exists b r, ops_resolved f ops = b :: r /\ (b2n b =? 0) = false /\ 1 <= ops_len ops.
+Proof.
+  destruct d as [id tag sib attrs ch]. intros H C.
+  rewrite codes_ok_unfold in C. destruct C as [[code [ab [C1 [_ C3]]]] _].
+  rewrite write_die_unfold in H.
+  apply bind_ok_inv in H. destruct H as [u0 [_ H]].
+  apply bind_ok_inv in H. destruct H as [code' [Ec H]].
+  unfold idx_get, unwrap in Ec. rewrite C1 in Ec. injection Ec as <-.
+  apply bind_ok_inv in H. destruct H as [cb [Ecb H]]. cbv zeta in H.
+  apply bind_ok_inv in H. destruct H as [aops [_ H]].
+  destruct (uleb_first_byte _ _ Ecb (abbrev_lookup_nonzero _ _ _ C3)) as [b [r [-> Hb]]].
+  assert (L : 1 <= UnitWr.blen (b :: r)) by (rewrite blen_cons; lia).
+  destruct ch as [|c r'].
+  - injection H as <-. exists b, (r ++ ops_resolved f aops). rewrite !ops_resolved_cons. cbn [op_resolved op_bytes app].
+    split; [reflexivity|]. split; [exact Hb|]. rewrite !ops_len_cons. cbn [op_bytes]. lia.
+  - apply bind_ok_inv in H. destruct H as [cops [_ H]]. apply bind_ok_inv in H. destruct H as [sibb [_ H]].
+    injection H as <-. eexists b, _. rewrite !ops_resolved_cons. cbn [op_resolved op_bytes app].
+    split; [reflexivity|]. split; [exact Hb|]. rewrite !ops_len_cons. cbn [op_bytes]. lia.
+Qed.
+
+Lemma write_list_count dbg cx (f : eid -> list byte) tab : forall ch p cops,
+  write_list dbg cx ch p = Ok cops -> codes_ok_list dbg cx tab ch -> N.of_nat (length ch) <= ops_len cops.
+Proof.
+  induction ch as [|c r IH]; intros p cops H C; cbn [write_list codes_ok_list length] in *.
+  - injection H as <-. rewrite ops_len_nil. lia.
+  - apply bind_ok_inv in H. destruct H as [o [Eo H]]. apply bind_ok_inv in H. destruct H as [ro [Ero H]].
+    injection H as <-. destruct C as [C1 C2]. rewrite ops_len_app.
+    destruct (write_die_first_byte dbg cx f tab c p o Eo C1) as [_ [_ [_ [_ L]]]].
+    specialize (IH _ _ Ero C2). lia.
+Qed.
+
+Definition dec_stmt (dbg : bool) (cx : wcx) (f : eid -> list byte) (tab : list abbrev) (d : die) : Prop :=
+  forall fuel pos ops rest,
+    write_die dbg cx d pos = Ok ops ->
+    codes_ok dbg cx tab d -> die_decodable d ->
+    (forall id, UnitWr.blen (f id) = wsz (wc_enc cx)) ->
+    pos + ops_len ops < 2 ^ 64 -> wc_unit_off cx <= pos ->
+    ops_len ops <= N.of_nat fuel ->
+    exists sd, decode_die fuel (wc_enc cx) (wc_be cx) tab pos (ops_resolved f ops ++ rest) = Some (sd, rest) /\
+               dmatch cx f d pos (pos + ops_len ops) sd.
+
+Lemma decode_kids_written dbg cx f tab ch :
+  Forall (dec_stmt dbg cx f tab) ch ->
+  forall fuel n p cops rest,
+    write_list dbg cx ch p = Ok cops ->
+    codes_ok_list dbg cx tab ch -> dies_decodable ch ->
+    (forall id, UnitWr.blen (f id) = wsz (wc_enc cx)) ->
+    p + ops_len cops < 2 ^ 64 -> wc_unit_off cx <= p ->
+    ops_len cops <= N.of_nat fuel -> (length ch < n)%nat ->
+    exists kids,
+      decode_kids (decode_die fuel (wc_enc cx) (wc_be cx) tab) n p (ops_resolved f cops ++ x00 :: rest) = Some (kids, rest) /\
+      kmatch cx f ch p (p + ops_len cops) kids.
+Proof.
+  induction 1 as [|c r Hc Hr IH]; intros fuel n p cops rest HW C D Hf B U F Ln;
+    cbn [write_list codes_ok_list dies_decodable length] in *.
+  - injection HW as <-. destruct n as [|k]; [lia|]. exists []. cbn [decode_kids app]. unfold ops_resolved. cbn [flat_map app].
+    change (b2n x00 =? 0) with true. cbn iota. rewrite ops_len_nil, N.add_0_r. split; [reflexivity|constructor].
+  - apply bind_ok_inv in HW. destruct HW as [o [Eo HW]]. apply bind_ok_inv in HW. destruct HW as [ro [Ero HW]].
+    injection HW as <-. destruct C as [C1 C2]. destruct D as [D1 D2].
+    rewrite ops_len_app in *. rewrite ops_resolved_app, <- app_assoc.
+    destruct n as [|k]; [lia|].
+    destruct (write_die_first_byte dbg cx f tab c p o Eo C1) as [b [tl [Eb [Hb Lo]]]].
+    destruct (Hc fuel p o (ops_resolved f ro ++ x00 :: rest) Eo C1 D1 Hf ltac:(lia) U ltac:(lia)) as [k0 [Dk Mk]].
+    cbn [decode_kids]. rewrite Eb in *. cbn [app]. rewrite Hb. cbn [app] in Dk. rewrite Dk.
+    (* position of the next child *)
+    assert (Lr : UnitWr.blen (ops_resolved f o) = ops_len o).
+    { apply (ops_resolved_len f (wsz (wc_enc cx))); [exact Hf|]. eapply write_die_refw; eassumption. }
+    rewrite Eb in Lr.
+    assert (Epos : p + (UnitWrSpec.blen (b :: tl ++ ops_resolved f ro ++ x00 :: rest) -
+                        UnitWrSpec.blen (ops_resolved f ro ++ x00 :: rest)) = p + ops_len o).
+    { change UnitWrSpec.blen with UnitWr.blen. change (b :: tl ++ ops_resolved f ro ++ x00 :: rest) with ((b :: tl) ++ ops_resolved f ro ++ x00 :: rest).
+      rewrite blen_app, Lr. lia. }
+    rewrite Epos.
+    destruct (IH fuel k (p + ops_len o) ro rest Ero C2 D2 Hf ltac:(lia) ltac:(lia) ltac:(lia) ltac:(lia)) as [ks [Dks Mks]].
+    rewrite Dks. exists (k0 :: ks). split; [reflexivity|].
+    econstructor; [exact Mk|]. replace (p + (ops_len o + ops_len ro)) with (p + ops_len o + ops_len ro) by lia. exact Mks.
+Qed.
